@@ -214,6 +214,11 @@ def c20_2(ctx):
                     ops = set(gi.f_opaques(e.reach)) if e.reach not in (True, False) else set()
                     ops -= set(gi.f_opaques(e.loops[-1].reach)) if e.loops and e.loops[-1].reach not in (True, False) else set()
                     allowed = {o for o in ops if (" in %s" % c) in o or "is_coinbase" in o or "previous_hash" in o}
+                    # tests whose failure RAISED before the loop was entered are no condition on the insertion: having passed them is
+                    # what every statement after them has in common
+                    for x_ in w.exits:
+                        if x_.kind == "raise" and x_.cond not in (True, False) and not (x_.node is not None and any(y is x_.node for y in ast.walk(lp))):
+                            allowed |= {o for o in gi.f_opaques(x_.cond) if isinstance(o, str)}
                     ctx.check(ops <= allowed, "dup-insert-unconditional", ctx.where(f, e.node), "Tx._check_txs_in: insertion into %s is conditional on %s; some outpoints are never recorded" % (c, sorted(ops - allowed)))
     if not found:
         if not any_use:
